@@ -897,3 +897,51 @@ def share_rules(ctx: Ctx, other_prop: str, prefix: str, only: Iterable[str], why
     if n == 0:
         rep.error(f"shared rules {only} of {other_prop} produced no obligation (under {prefix})")
     return n
+
+
+def no_dead_duplicate_dispatch(ctx: Ctx, rule: str, modules: Iterable[str], why: str) -> int:
+    """In a statement list, two `if` statements with the same test where the body of the first always leaves (return / raise / continue / break) make the second
+    one dead code: in a dispatch on the kind of a value (`if isinstance(obj, ModuleType): .. return`, `if isinstance(obj, FunctionType): .. return`,
+    `if isinstance(obj, type): ..`) a copied test means that one kind is no longer handled."""
+    rep = ctx.report
+    prog = ctx.prog
+    n = 0
+
+    def leaves(body: List[ast.stmt]) -> bool:
+        if not body:
+            return False
+        last = body[-1]
+        if isinstance(last, (ast.Return, ast.Raise, ast.Continue, ast.Break)):
+            return True
+        if isinstance(last, ast.If) and last.orelse:
+            return leaves(last.body) and leaves(last.orelse)
+        return False
+    for f in prog.funcs.values():
+        if f.module.name not in modules:
+            continue
+        bodies: List[List[ast.stmt]] = []
+        for y in [f.node] + [x for x in f.own_nodes() if isinstance(x, (ast.If, ast.For, ast.While, ast.With, ast.Try))]:
+            for fld in ("body", "orelse", "finalbody"):
+                b = getattr(y, fld, None)
+                if isinstance(b, list) and b and isinstance(b[0], ast.stmt):
+                    bodies.append(b)
+        for b in bodies:
+            ifs = [st for st in b if isinstance(st, ast.If) and any(isinstance(x, ast.Call) and unparse(x.func) == "isinstance" for x in ast.walk(st.test))]
+            if len(ifs) < 2:
+                continue
+            n += 1
+            seen: Dict[str, ast.If] = {}
+            dup = None
+            for st in ifs:
+                t = unparse(st.test, 200)
+                if t in seen and leaves(seen[t].body):
+                    dup = (seen[t], st)
+                    break
+                seen.setdefault(t, st)
+            desc = f"{f.name}: the kind tests `{[unparse(st.test, 40) for st in ifs][:4]}` of one dispatch are pairwise different"
+            if dup is None:
+                rep.ok(rule, f.qname, desc, f.loc(ifs[0]))
+            else:
+                rep.bad(rule, f.qname, desc, f.loc(dup[1]), [f"{f.loc(dup[1])}: `if {unparse(dup[1].test, 60)}` repeats the test at {f.loc(dup[0])}, whose branch always leaves: this branch is dead", why],
+                        stmt_key(dup[1]), what=f"a kind of object is no longer handled by the dispatch in {f.name} (a test is duplicated)")
+    return n
